@@ -119,6 +119,18 @@ def run(tier, seed):
             have.add(key)
             stimuli.append({"id": len(stimuli) + 1, "every": True, "ops": row["ops"], "feat": sorted(row["feat"])})
     rep.cov["directed"] = gd
+    # histories with one operation that asks for what already holds (use-package twice, export twice, the same value
+    # again ...): PackagesGen!RNext, the redundant operation is a ghost in the view; one name, depth 6
+    rcons = {"MaxDepth": 6, "N": '{"n1"}', "P": '{"pa", "pb"}' if tier == "quick" else '{"pa", "pb", "pc"}'}
+    rows, gr = gen.bfs(SPEC, "PackagesGen", "PackagesRedundant.cfg", rcons, timeout=1500, workers=4)
+    for row in rows:
+        key = json.dumps(row["ops"], sort_keys=True)
+        if key not in have:
+            have.add(key)
+            stimuli.append({"id": len(stimuli) + 1, "every": False, "ops": row["ops"], "feat": sorted(row["feat"])})
+    rep.cov["redundant"] = gr
+    rep.cov["states"] += gr["distinct"]
+    rep.cov["transitions"] += gr["generated"]
     findings = [f for f in common.load_findings(PROP) if f.get("status") == "open"]
     open_feats = {f["feature"]: f for f in findings}
     events = pipeline.drive(vdrive, "c13", stimuli)
@@ -143,7 +155,9 @@ def run(tier, seed):
     rep.cov["distinct_nontrivial"] = g["distinct"]
     rep.cov["rule"] = (f"one history per transition of PackagesGen (3 packages, 2 names x var/fn, depth<={depth}, VIEW on the "
                        f"reference state) and of the implementation-shaped twin, plus {walks} random walks of {wdepth} operations through the same Next relation "
-                       "(observed after every operation); distinct = distinct reference states reached; every history executed against slip "
+                       "(observed after every operation), directed provider-conflict histories, and one history per transition of the exploration that "
+                       "allows one redundant operation (use-package of a package already used, export of an exported name, the same value again, "
+                       "unuse / unexport of what is not used / exported; the redundant operation is a ghost in the view; one name, depth 6, " + ("2" if tier == "quick" else "3") + " packages); distinct = distinct reference states reached; every history executed against slip "
                        "with fresh packages, observation = full resolution matrix + qualified access")
     rep.cov["samples"] = [{"stimulus": s["ops"], "features": s["feat"]} for s in stimuli[:: max(1, len(stimuli) // 5)][:5]]
     rep.cov["exhaustive"] = True
